@@ -2252,6 +2252,8 @@ class Attribute(object):
         if attr.lazy:
             entity = attr.entity
             database = entity._database_
+            if cache is not database._get_cache():
+                throw(TransactionError, "Object %s doesn't belong to current transaction" % safe_repr(obj))
             if not attr.lazy_sql_cache:
                 select_list = [ 'ALL' ] + [ [ 'COLUMN', None, column ] for column in attr.columns ]
                 from_list = [ 'FROM', [ None, 'TABLE', entity._table_ ] ]
